@@ -112,3 +112,28 @@ def register(db):
     ))
 
     # is_ncname: see c_scanners.py (array-encoded strings)
+
+    # ------------------------------------------------------------------ cleaning of the user supplied prefix map
+    NONEMPTY = "k is not None and k != ''"
+    INV = [
+        "forall('str|None', lambda k: implies(k in result, k != '' and result[k] != ''))",
+        "forall('str|None', lambda k: implies(k is not None and k in result, k in ns_map and ns_map[k] == result[k]))",
+        f"forall('str|None', lambda k: implies({NONEMPTY} and k in ns_map and ns_map[k] != '' and pos_of(ns_map, k) < _i, k in result))",
+        "implies(None in result, (None in ns_map and result[None] == ns_map[None]) or ('' in ns_map and result[None] == ns_map['']))",
+        "same_dict(ns_map, old(ns_map))",
+    ]
+    db.add(Contract(
+        "xsdata.utils.namespaces:clean_prefixes",
+        params={"ns_map": NSMAP},
+        ensures=[
+            ("no-empty-prefix-key-no-empty-uri", "forall('str|None', lambda k: implies(k in result, k != '' and result[k] != ''))"),
+            ("prefixed-bindings-are-the-user-bindings", "forall('str|None', lambda k: implies(k is not None and k in result, k in ns_map and ns_map[k] == result[k]))"),
+            ("every-usable-prefixed-binding-kept", f"forall('str|None', lambda k: implies({NONEMPTY} and k in ns_map and ns_map[k] != '', k in result))"),
+            ("default-namespace-comes-from-the-user-map", "implies(None in result, (None in ns_map and result[None] == ns_map[None]) or ('' in ns_map and result[None] == ns_map['']))"),
+            ("default-dropped-when-its-uri-also-has-a-prefix", "implies(None in result, not exists('str', lambda k: k != '' and k in result and result[k] == result[None]))"),
+            ("user-map-untouched", "same_dict(ns_map, old(ns_map)) and not (result is ns_map)"),
+        ],
+        raises={}, returns=NSMAP,
+        loops=[Loop(invariants=INV, header="ns_map.items()", modifies=["result"], vars={"result": NSMAP})],
+        properties=["C03", "C14"],
+    ))
